@@ -9,6 +9,8 @@ Transcribed from /repo/ipld/merkledag/dagutils/{diff.go,utils.go} and the ProtoN
   Diff (diff.go:103)                                    ~ `diff`, `diffKids`, `onlyIn`
   ApplyChange (diff.go:47) / Editor.InsertNodeAtPath /
   Editor.RmLink (utils.go)                              ~ `apply1`, `insertAt`, `rmAt`, `applyAll`
+  non-ProtoNode (raw) nodes                             ~ `T.raw` (data ≥ 1000), `modPair`; ApplyChange as repaired
+                                                          by the fix that lets Add/Mod insert a node of any codec
 
 Link names are natural numbers (the harness renders them as fixed-width strings, so the byte order is the
 numeric order and no name contains '/', "." or ".."); a path is the list of names that `path.Join` glues and
@@ -37,6 +39,13 @@ def T.kids : T → F
 def F.isNil : F → Bool
   | .nil => true
   | .cons _ _ _ => false
+
+/-- a node that is not a dag-pb ProtoNode (a raw leaf): the harness renders data ≥ 1000 as a raw block.
+Diff treats it as opaque, the Editor cannot descend into or edit it (ErrNotProtobuf). -/
+def T.raw (t : T) : Bool := decide (1000 ≤ t.data)
+
+/-- Diff's `!okA || !okB || (len(linksA) == 0 && len(linksB) == 0)`: the pair is reported as one Mod -/
+def modPair (a b : T) : Bool := a.raw || b.raw || (a.kids.isNil && b.kids.isNil)
 
 /-- first link with that name -/
 def F.find : F → Nat → Option T
@@ -78,7 +87,7 @@ mutual
 def diff : T → T → List Ch
   | .n da ka, b =>
     if T.n da ka = b then []
-    else if ka.isNil && b.kids.isNil then [.mod [] (.n da ka) b]
+    else if modPair (.n da ka) b then [.mod [] (.n da ka) b]
     else
       diffKids ka b.kids
         ++ (onlyIn ka b.kids).map (fun p => Ch.rm [p.1] p.2)
@@ -96,8 +105,9 @@ end
 /-- Editor.InsertNodeAtPath (create = nil): `none` = error -/
 def insertAt : T → List Nat → T → Option T
   | _, [], _ => none                                    -- Split("") = [""]: "cannot create link with no name"
-  | .n d k, [name], c => some (.n d (k.set name c))     -- addLink
+  | .n d k, [name], c => if T.raw (.n d k) then none else some (.n d (k.set name c))     -- addLink
   | .n d k, name :: p :: ps, c =>
+    if T.raw (.n d k) then none else                    -- GetLinkedProtoNode: ErrNotProtobuf
     match k.find name with
     | none => none                                      -- ErrLinkNotFound
     | some sub =>
@@ -108,8 +118,9 @@ def insertAt : T → List Nat → T → Option T
 /-- Editor.RmLink -/
 def rmAt : T → List Nat → Option T
   | _, [] => none                                       -- RemoveNodeLink(""): ErrLinkNotFound
-  | .n d k, [name] => if (k.find name).isSome then some (.n d (k.remove name)) else none
+  | .n d k, [name] => if T.raw (.n d k) then none else if (k.find name).isSome then some (.n d (k.remove name)) else none
   | .n d k, name :: p :: ps =>
+    if T.raw (.n d k) then none else
     match k.find name with
     | none => none
     | some sub =>
@@ -135,14 +146,14 @@ def applyAll : T → List Ch → Option T
 (`C14.Good`, `C14.c14_goodB_iff`); printed by the driver and compared with the harness's classification -/
 mutual
 def subB : T → T → Bool
-  | .n da ka, b => decide (T.n da ka = b) || (ka.isNil && b.kids.isNil) ||
-      (!(ka.isNil && b.kids.isNil) && da == b.data && subKB ka b.kids)
+  | .n da ka, b => decide (T.n da ka = b) || modPair (.n da ka) b ||
+      (!modPair (.n da ka) b && da == b.data && subKB ka b.kids)
 def subKB : F → F → Bool
   | .nil, _ => true
   | .cons name ta rest, kb => (match kb.find name with | some tb => subB ta tb | none => true) && subKB rest kb
 end
 
 def goodB (a b : T) : Bool :=
-  decide (a = b) || (!(a.kids.isNil && b.kids.isNil) && a.data == b.data && subKB a.kids b.kids)
+  decide (a = b) || (!modPair a b && a.data == b.data && subKB a.kids b.kids)
 
 end C14
